@@ -412,17 +412,23 @@ theorem inv_step (c : Conn Message) (hi : Inv c) (e : Ev Message) (he : e.Wf) : 
 
 theorem pat_length (tag len : Nat) : (pat tag len).length = len := by simp [pat]
 
+theorem jpat_length (tag len : Nat) : (jpat tag len).length = len := by simp [jpat]
+
+theorem lframe_body_length (f : LFrame) : f.body.length = f.blen := by
+  unfold LFrame.body; split <;> simp [pat_length, jpat_length]
+
 /-- The driver's described frames are exactly the `MessageBuilder` messages with the pattern body. -/
 theorem lframe_is_message (f : LFrame) :
     f.bytes = f.message.toVec ∧ f.len = f.message.toVec.length := by
   constructor
   · simp [LFrame.bytes, LFrame.message, LFrame.header, Builder.build, Message.toVec,
-      Header.patchLengths, pat_length]
-  · simp [LFrame.len, LFrame.message, Builder.build, Message.toVec, pat_length]; omega
+      Header.patchLengths, lframe_body_length]
+  · simp [LFrame.len, LFrame.message, Builder.build, Message.toVec, lframe_body_length]; omega
 
-theorem lframe_wf (f : LFrame) (hid : f.id < 2^64) (hlen : 48 + f.query.length + f.blen < 2^64) :
-    f.message.WF :=
-  Builder.build_wf _ hid (by simp) (by simp) (by simp) (by simpa [pat_length] using hlen)
+theorem lframe_wf (f : LFrame) (hid : f.id < 2^64) (hbf : f.bfmt < 2^16)
+    (hlen : 48 + f.query.length + f.blen < 2^64) : f.message.WF :=
+  Builder.build_wf _ hid (by simp) (by simp) (by simpa using hbf)
+    (by simpa [lframe_body_length] using hlen)
 
 /-! ### changing the representation of frames does not change the run -/
 
